@@ -1,0 +1,27 @@
+//! Verification hooks (compiled only with `--cfg resynth_verif`).
+//!
+//! Re-exports otherwise crate-private items so that an external harness can drive the
+//! lexer, parser, argument binder, value conversions and the standard-library symbol
+//! table directly. Nothing here changes behaviour.
+
+pub use crate::args::{ArgExpr, ArgSpec, ArgVec, Args};
+pub use crate::err::Error;
+pub use crate::lex::{Lexer, TokType, Token, EOF};
+pub use crate::libapi::{ArgDecl, ArgDesc, Class, ClassDef, Documented, FuncDef, Module, SymDesc};
+pub use crate::loc::Loc;
+pub use crate::object::ObjRef;
+pub use crate::parse::{Assign, Call, Expr, Import, ObjectRef, Parser, Stmt};
+pub use crate::program::Program;
+pub use crate::str::Buf;
+pub use crate::sym::Symbol;
+pub use crate::val::{Typed, Val, ValDef, ValType};
+
+/// Root of the standard-library symbol table
+pub fn stdlib_root() -> &'static Module {
+    crate::stdlib::verif_root()
+}
+
+/// The bound arguments of a call: (positional slots, collected extra arguments)
+pub fn argvec_parts(v: &ArgVec) -> (&[Val], &[Val]) {
+    v.verif_parts()
+}
